@@ -26,6 +26,9 @@ pub struct Case {
     pub par: ParKind,
     /// only for replay / shrinking: restrict to one fault position
     pub only_k: Option<u64>,
+    /// p > 0: every p-th storage gate yields, so that the spawned insertion / preload tasks interleave with their parent
+    #[serde(default)]
+    pub yields: u8,
 }
 #[derive(Default)]
 pub struct Stats {
@@ -43,7 +46,7 @@ struct Inst<TC: Tcfg> {
     dir: Dir<TC, VDb>,
 }
 
-async fn instance<TC: Tcfg>(mgr: Mgr, par: ParKind, key: &[u8], s_a: &[DbRecord], s_b: &[DbRecord], last_prefix: Option<&Vec<Pair>>) -> R<Inst<TC>> {
+async fn instance<TC: Tcfg>(mgr: Mgr, par: ParKind, yields: u8, key: &[u8], s_a: &[DbRecord], s_b: &[DbRecord], last_prefix: Option<&Vec<Pair>>) -> R<Inst<TC>> {
     let (base, warm) = match (mgr, last_prefix) {
         (Mgr::WarmCache, Some(_)) => (s_a, true),
         _ => (s_b, false),
@@ -58,6 +61,7 @@ async fn instance<TC: Tcfg>(mgr: Mgr, par: ParKind, key: &[u8], s_a: &[DbRecord]
         // (the last prefix batch may itself be a rejected or no-op publish; then nothing is warmed)
         let _ = dir.publish(to_batch(last_prefix.unwrap())).await;
     }
+    vdb.ctl.yield_every.store(yields as u64, std::sync::atomic::Ordering::SeqCst);
     Ok(Inst { vdb, st, dir })
 }
 
@@ -166,7 +170,7 @@ async fn run_cfg<TC: Tcfg>(case: &Case, st: &mut Stats) -> R {
     let _ = m_alt_after.publish(&followup);
     let exp_alt2 = m_alt_after.publish(&target).map_err(|_| Fail { sig: "harness".into(), msg: "target batch invalid after follow-up".into() })?;
     // fault-free run: K
-    let inst = instance::<TC>(case.mgr, case.par, &key, &s_a, &s_b, last_prefix).await?;
+    let inst = instance::<TC>(case.mgr, case.par, case.yields, &key, &s_a, &s_b, last_prefix).await?;
     let pre = snapshot(&inst.vdb.inner).await;
     ensure!(pre == s_b, "harness-prefix-nondeterministic", "re-executed prefix gives a different database");
     inst.vdb.reset_ops();
@@ -185,14 +189,14 @@ async fn run_cfg<TC: Tcfg>(case: &Case, st: &mut Stats) -> R {
             }
         }
         for outage in [false, true] {
-            let inst = instance::<TC>(case.mgr, case.par, &key, &s_a, &s_b, last_prefix).await?;
+            let inst = instance::<TC>(case.mgr, case.par, case.yields, &key, &s_a, &s_b, last_prefix).await?;
             inst.vdb.reset_ops();
             inst.vdb.set_fault(Some(k), outage);
             let r = inst.dir.publish(to_batch(&target)).await;
             let hit = inst.vdb.ctl.faults_hit.load(std::sync::atomic::Ordering::SeqCst);
             // the database recovers when the call has returned
             inst.vdb.set_fault(None, false);
-            let what = format!("fault at storage operation {k}/{k_total} ({:?}{}), manager {:?}, parallelism {:?}", kinds.get(k as usize), if outage { ", outage" } else { "" }, case.mgr, case.par);
+            let what = format!("fault at storage operation {k}/{k_total} ({:?}{}), manager {:?}, parallelism {:?}", kinds.get(k as usize), if outage { ", outage" } else { "" }, case.mgr, case.par) + &(if case.yields > 0 { format!(", storage yields every {} gates", case.yields) } else { String::new() });
             if hit == 0 {
                 st.not_reached += 1;
                 ensure!(r.is_ok(), "publish-err", "{what}: the fault position was never reached but publish failed: {:?}", r.err());
@@ -257,6 +261,9 @@ pub fn check(case: &Case, ctx: &mut Ctx) -> R {
     ctx.count("faults_in_reads_after_begin_transaction", st.after_begin);
     ctx.count("faults_in_commit_write", st.commit_faults);
     ctx.class(&format!("{:?}/{:?}", case.mgr, case.par));
+    if case.yields > 0 && case.par != ParKind::Disabled {
+        ctx.class("spawned_tasks_interleaved(yielding_storage)");
+    }
     // every injected fault is one execution; distinct non-trivial = distinct (case, configuration, fault position, fault kind)
     // with the fault in a read after begin_transaction or in the commit write
     if ctx.counting {
@@ -286,8 +293,9 @@ pub fn strategy(thorough: bool) -> impl Strategy<Value = Case> {
         prop_oneof![4 => hist_strategy(1, max_e, if thorough { 10 } else { 6 }, 8), 1 => big],
         prop_oneof![Just(Mgr::NoCache), Just(Mgr::ColdCache), Just(Mgr::WarmCache)],
         prop_oneof![Just(ParKind::Disabled), Just(ParKind::Default), Just(ParKind::Static(2))],
+        prop_oneof![2 => Just(0u8), 2 => Just(1u8), 1 => 2u8..6],
     )
-        .prop_map(|(hist, mgr, par)| Case { hist, mgr, par, only_k: None })
+        .prop_map(|(hist, mgr, par, yields)| Case { hist, mgr, par, only_k: None, yields })
 }
 
 pub fn run(eng: &mut Engine) {
@@ -298,7 +306,7 @@ pub fn run(eng: &mut Engine) {
     eng.assume("the database recovers as soon as the failed call has returned; spawned insertion tasks are given time to finish (quiescence) before the database is inspected");
     eng.prop_part(
         "faults",
-        "generated short histories (prefix of 0-3/0-5 publishes + a state-changing target publish), manager in {no cache, cold cache, cache warmed by the previous publish}, insertion/preload parallelism in {disabled, default, static 2}; the target publish's storage operation count K is measured, then EVERY k<K is failed (single fault and outage-until-return) on a freshly restored copy; oracle: Err returned, no transaction open, same instance and a fresh instance serve the model's previous state, database snapshot unchanged, retry reaches the model's next state; evaluations = fault runs; non-trivial = fault in a read after begin_transaction or in the commit write, distinct by (case, configuration, fault position, single/outage)",
+        "generated short histories (prefix of 0-3/0-5 publishes + a state-changing target publish), manager in {no cache, cold cache, cache warmed by the previous publish}, insertion/preload parallelism in {disabled, default, static 2}, storage operations that return at once or yield to the runtime (every / every p-th gate) so that spawned insertion tasks really interleave with their parent; the target publish's storage operation count K is measured, then EVERY k<K is failed (single fault and outage-until-return) on a freshly restored copy; oracle: Err returned, no transaction open, same instance and a fresh instance serve the model's previous state, database snapshot unchanged, retry reaches the model's next state; evaluations = fault runs; non-trivial = fault in a read after begin_transaction or in the commit write, distinct by (case, configuration, fault position, single/outage)",
         eng.tier.pick(400, 6000),
         move || strategy(thorough),
         check,
